@@ -24,7 +24,7 @@ EXPECTED_PROBES = ['string-channel', 'index-file', 'append-session', 'rejected-c
 
 def generate(rng, tier):
     prog = wgen.gen_program(rng)
-    sink = rng.choice(['simpath', 'simpath', 'simstream', 'bytesio', 'realpath'])
+    sink = rng.choice(['simpath', 'simpath', 'simstream', 'bytesio', 'realpath', 'minimal'])
     return {'program': prog, 'sink': sink, 'index': rng.random() < 0.5,
             # the data file's name: an index file belongs beside it under <name>_index whatever the name looks like
             'fname': rng.choice(['out.tdms'] * 4 + ['OUT.TDMS', 'capture', 'out.tdms.part', 'my data.tdms', 'run.1.dat'])}
